@@ -388,6 +388,12 @@ func (m *ldbManager) Pop() error {
 		return err
 	}
 
+	// cached rollback overlays were computed against the branch that is being abandoned
+	m.changes.Lock()
+	m.l1Cache.Purge()
+	m.l2Cache.Purge()
+	m.changes.Unlock()
+
 	return nil
 }
 func (m *ldbManager) Stop() error {
